@@ -148,9 +148,16 @@ func genC04(t *rapid.T) C04Case {
 		BadVars:  rapid.Bool().Draw(t, "badvars"),
 		Custom:   true, Consts: true, Aliases: true, BoolW: 8, VarW: 14,
 	}}
-	tree := wrapRoot(g.Program(rootTy(t)))
+	var tree *m.Node
+	var wish map[string]bool
+	if rapid.IntRange(0, 7).Draw(t, "chain") == 0 {
+		tree, wish = decisionChain(t)
+	} else {
+		tree = wrapRoot(g.Program(rootTy(t)))
+	}
 	fixEmptyLists(tree)
 	u := UniverseFor(t, tree, false)
+	applyWishes(u, wish)
 	// a variable that is not bound is not available (the fetcher reports availability truthfully)
 	var unboundNames []string
 	for _, v := range u.Vars {
